@@ -1,6 +1,8 @@
 package props
 
 import (
+	"context"
+	"errors"
 	"fmt"
 	"strings"
 
@@ -306,7 +308,54 @@ func replayC10(c *h.Ctx, cs h.Case) {
 
 var docPrefixHeads = []string{"-", "+"}
 
+// c10Interrupted: a context that becomes done while a condition is being
+// evaluated (after any poll, whichever way it ended) is no truth value: the
+// filter fails with that error, or - done too late to be seen - keeps what the
+// undisturbed run keeps.
+func c10Interrupted(c *h.Ctx) {
+	k := 0
+	for _, pt := range []string{`$[*] ? ((@ > 1) is unknown)`, `$[*] ? (!(@ > 1))`, `$[*] ? (exists(@ ? (@ > 1)))`, `$[*] ? (@ > 6 || (@ == "x") is unknown)`, `strict $[*] ? ((@.a > 1) is unknown)`, `$ ? ((@[*] > 1) is unknown)`,
+		`$[*] ? (((@ > 1) is unknown) is unknown)`, `$[*] ? (!((@ > 1) is unknown))`, `$[*] ? ((@ > 1) is unknown && @ > 0)`, `$[*] ? (@ > 1) ? ((@ < 9) is unknown)`} {
+		for _, d := range []string{`[5,7]`, `[1,"x",7]`, `[{"a":2},{"b":1}]`} {
+			for _, entry := range []string{"query", "first", "exists"} {
+				k++
+				if !c.Mine(k) {
+					continue
+				}
+				p := cachedPath(pt)
+				if p == nil {
+					continue
+				}
+				for _, silent := range []bool{false, true} {
+					opts := h.Opts{Silent: silent}
+					base := h.Call(entry, p, h.Decode(d, false), opts)
+					c.Eval(1)
+					for n := 1; n <= base.Polls; n++ {
+						for _, cause := range []error{context.Canceled, context.DeadlineExceeded} {
+							m := &h.CallMon{CancelAt: -1, CancelAfterPoll: n, Cause: cause}
+							o := h.CallMonitored(entry, p, h.Decode(d, false), opts, m)
+							c.Eval(1)
+							cs := h.Case{Kind: "interrupted", Path: pt, Doc: d, Entry: entry, Silent: silent, Extra: map[string]string{"after-poll": fmt.Sprint(n), "cause": cause.Error()}}
+							switch {
+							case o.Class == h.Panic:
+								c.Skip("hard-aborts", "panic-is-C05")
+							case errors.Is(o.Err, cause):
+								c.Held("hard-aborts")
+							case m.PollsAfter == 0 && o.Summary() == base.Summary():
+								c.Held("hard-aborts") // done after the last poll
+							default:
+								c.Violate("hard-aborts", h.F("kind", "interrupted", "entry", entry, "cause", cause.Error()), fmt.Sprintf("%s(%s) on %s: the context was done (%v) after poll %d of %d, %d later polls saw it, yet the call returned %s (undisturbed: %s)", entry, pt, d, cause, n, base.Polls, m.PollsAfter, o.Summary(), base.Summary()), cs)
+							}
+						}
+					}
+				}
+			}
+		}
+	}
+}
+
 func runC10(c *h.Ctx) {
+	c10Interrupted(c)
 	r := c.Rand("c10")
 	g := &gen.G{R: r, C: gen.DefaultCfg()}
 	g.C.Datetime = true
